@@ -180,12 +180,15 @@ class C09(Cfg):
                   "Regression witnesses for the code before each repair (switch off now, corpus replay kept): the dropped history seed, the entity not compared, the emptied day keeping a row (all #20; Defects.beforeFixHistory), "
                   "the lazily evaluated SELECT (079e672), the old day of a synchronised cross-day update (8123d04), "
                   "the synchronised deletion of another version (1a9cbe6), the reference deletion that re-dates its source row without marking (9b21e0a) or without removing anything (456214b). "
-                  "The model is tied to /repo by running both on the same generated multi-day histories and comparing every table of every peer after every op.")
+                  "The day of a date: date_utils::date / date_next_day are modelled as written, chrono's representable range included (Model/Date.lean), and for every representable date the SQL day window [date t, date_next_day t) "
+                  "selects exactly the dates of the same day number t / 86400000 — the `dayOf` of the models (C09_window_iff_same_day, C09_date_eq_iff_same_day, C09_windows_disjoint; C09_date_idem / C09_date_mono for every i64; "
+                  "C09_breaks_lastDay: in the last representable day the window is empty, the boundary of the hypothesis). "
+                  "The model is tied to /repo by running both on the same generated multi-day histories and comparing every table of every peer after every op, and by the `dates` stream (real date / date_next_day on range bounds, day bounds, i64 extremes, random magnitudes).")
     level_note = ("Trusted: Lean kernel (+propext, Classical.choice, Quot.sound), the hand-written models lean/DiscretModel/Model/{DailyLog,Sync}.lean and the harness. "
                   "Modelled and exercised: daily_log.rs (marks, compute), the marking sites of mutation_query.rs, deletion.rs, node.rs, edge.rs, the batch writer's end-of-batch mark write, "
                   "synchronise_room. Idealised: blake3 injective, signatures as opaque numbers. Exercised only: SQL text.")
     trusted_base = [
-        "hand-written models lean/DiscretModel/Model/DailyLog.lean and Sync.lean, tied by the correspondence run (dv-sync vs dmodel_sync)",
+        "hand-written models lean/DiscretModel/Model/DailyLog.lean, Sync.lean and Date.lean, tied by the correspondence run (dv-sync vs dmodel_sync)",
         "harness/sync (real GraphDatabaseService instances, logical clock hook, writer batches forced by a blocking Writeable; the from-scratch recomputation uses SQL over _node and the deletion logs and the blake3 crate)",
         "blake3 modelled as an injective function of the bytes fed to it; Ed25519 signatures as distinct numbers for distinct signed contents",
     ]
